@@ -815,3 +815,59 @@ M("C08", "search: finish leaves next list active", FS, """    for (gn = fsgs->pn
 """, "", "EFFECT.G2-resets")
 M("C08", "new global counter", "src/cmn_live.c", "void\ncmn_live_update(cmn_t *cmn)\n{", "static int n_updates;\nvoid\ncmn_live_update(cmn_t *cmn)\n{\n    ++n_updates;", "CENSUS.G1-static-storage")
 M("C08", "fe_warp read at decode time", "src/fe_sigproc.c", "int\nfe_read_frame_int16(fe_t *fe, int16 const *in, int32 len)\n{\n    int i;\n", "int\nfe_read_frame_int16(fe_t *fe, int16 const *in, int32 len)\n{\n    int i;\n    if (fe->mel_fb->warp_id == 1 && fe_warp_unwarped_to_warped(fe->mel_fb, 1.0f) < 0) return 0;\n", "CENSUS.G1-static-storage")
+
+# ---- C14 ----------------------------------------------------------------------
+M("C14", "json: alignment empty-list placeholder dropped", DC, """        alignment_iter_t *itor = alignment_words(alignment);
+        if (itor == NULL) {
+            *ptr++ = ']'; /* Gets overwritten below... */
+            maxlen--;
+        }
+        for (; itor; itor = alignment_iter_next(itor)) {
+            assert(maxlen > 0);""", """        alignment_iter_t *itor = alignment_words(alignment);
+        for (; itor; itor = alignment_iter_next(itor)) {
+            assert(maxlen > 0);""", "EMIT.E1-two-passes")
+M("C14", "json: sizing drops empty segment list (seed C09-1)", DC, """        seg_iter_t *itor = decoder_seg_iter(d);
+        if (itor == NULL)
+            maxlen++; /* ] at end */
+        for (; itor; itor = seg_iter_next(itor)) {
+            maxlen += format_seg""", """        seg_iter_t *itor = decoder_seg_iter(d);
+        for (; itor; itor = seg_iter_next(itor)) {
+            maxlen += format_seg""", "EMIT.E1-two-passes")
+M("C14", "json: separator not counted", DC, """            maxlen += format_seg(NULL, 0, itor, start, frate, lmath);
+            maxlen++; /* , or ] at end */""", """            maxlen += format_seg(NULL, 0, itor, start, frate, lmath);""", "EMIT.E1-two-passes")
+M("C14", "json: writing pass different frame rate", DC, "            len = format_seg(ptr, maxlen, itor, start, frate, lmath);", "            len = format_seg(ptr, maxlen, itor, start, 100, lmath);", "EMIT.E1-two-passes")
+M("C14", "json: remainder not tracked", DC, """            len = format_seg(ptr, maxlen, itor, start, frate, lmath);
+            ptr += len;
+            maxlen -= len;""", """            len = format_seg(ptr, maxlen, itor, start, frate, lmath);
+            ptr += len;""", "EMIT.E1-two-passes")
+M("C14", "json: maxlen decrement hoisted (seed C14-1)", DC, """                if (sitor != NULL) {
+                    len++;
+                    if (outptr)
+                        *outptr++ = ',';
+                    if (maxlen)
+                        maxlen--;
+                }""", """                if (sitor != NULL) {
+                    len++;
+                    if (outptr)
+                        *outptr++ = ',';
+                }
+                if (maxlen)
+                    maxlen--;""", "EMIT.E2-accounting")
+M("C14", "json: state list close not counted", DC, """            len++;
+            if (outptr)
+                *outptr++ = ']';
+            if (maxlen)
+                maxlen--;
+        }
+
+        len++; /* } */""", """            if (outptr)
+                *outptr++ = ']';
+            if (maxlen)
+                maxlen--;
+        }
+
+        len++; /* } */""", "EMIT.E2-accounting")
+M("C14", "json: word not escaped in format_seg", DC, "    word = json_escape(seg_iter_word(seg));", "    word = ckd_salloc(seg_iter_word(seg) ? seg_iter_word(seg) : \"\");", "TAINT.E3-escaping")
+M("C14", "json: duration without +1", DC, "    dur = (double)(ef + 1 - sf) / frate;", "    dur = (double)(ef - sf) / frate;", "PROV.E4-values")
+M("C14", "json: alignment start without offset", DC, "    st = utt_start + (double)start / frate;", "    st = (double)start / frate;", "PROV.E4-values")
+M("C14", "json: prob of different call", DC, "    prob = logmath_exp(lmath, seg_iter_prob(seg, NULL, NULL));", "    prob = logmath_exp(lmath, 0);", "PROV.E4-values")
